@@ -92,7 +92,7 @@ Proof.
   pose proof (step_unfold s o) as SU. rewrite R in SU. apply step_ok_exec in SU.
   set (s' := step_state s o) in *. set (evs := snd (fst (step s o))) in *. clearbody s' evs.
   pose proof (inv_pool_nodup _ I) as NDp.
-  destruct o as [sender dest amount fee token|sender dest amount fee token|id who|id who add token which|token which feercv basefee minfee auth
+  destruct o as [sender dest amount fee token|sender dest amount fee token|id who|id who add token which|id who add token|token which feercv basefee minfee auth
                 |token nonce h|h|sender refund coins to data memo|sender refund value tokens to data memo|nonce ok h|e| |p|]; simpl in SU, A.
   - (* Send *)
     pose proof (send_pending _ _ _ _ _ _ _ _ SU) as Ep.
@@ -106,6 +106,8 @@ Proof.
     constructor; simpl; rewrite ?Eb, ?Ec, ?Eo, ?Ep; auto.
   - pose proof (increase_pending _ _ _ _ _ _ _ _ SU) as Ep.
     destruct (increase_spec _ _ _ _ _ _ _ _ NDp SU) as (_ & x & L & _ & _ & _ & _ & _ & Eb & Ec & _ & _ & _ & Eo & -> & _).
+    constructor; simpl; rewrite ?Eb, ?Ec, ?Eo, ?Ep; auto.
+  - destruct (increase_p_spec _ _ _ _ _ _ _ NDp SU) as (_ & x & L & _ & _ & _ & _ & _ & Eb & Ec & _ & _ & _ & Eo & -> & _ & Ep & _).
     constructor; simpl; rewrite ?Eb, ?Ec, ?Eo, ?Ep; auto.
   - (* RequestBatch *)
     pose proof (request_pending _ _ _ _ _ _ _ _ _ SU) as Ep.
@@ -298,7 +300,7 @@ Proof.
   intros g s o I [JB JC JP] [GC GN] A G.
   destruct (step_state_cases s o) as [(evs & SU)|E]; [|rewrite E; constructor; auto].
   set (s' := step_state s o) in *. clearbody s'. pose proof (inv_pool_nodup _ I) as NDp.
-  destruct o as [sender dest amount fee token|sender dest amount fee token|id who|id who add token which|token which feercv basefee minfee auth
+  destruct o as [sender dest amount fee token|sender dest amount fee token|id who|id who add token which|id who add token|token which feercv basefee minfee auth
                 |token nonce h|h|sender refund coins to data memo|sender refund value tokens to data memo|nonce ok h|e| |p|]; simpl in SU, A, G.
   - pose proof (send_pending _ _ _ _ _ _ _ _ SU) as Ep.
     destruct (send_spec _ _ _ _ _ _ _ _ SU) as (_ & _ & _ & _ & Ec & _).
@@ -311,6 +313,8 @@ Proof.
     constructor; rewrite ?Ep, ?Ec; auto.
   - pose proof (increase_pending _ _ _ _ _ _ _ _ SU) as Ep.
     destruct (increase_spec _ _ _ _ _ _ _ _ NDp SU) as (_ & x & L & _ & _ & _ & _ & _ & _ & Ec & _).
+    constructor; rewrite ?Ep, ?Ec; auto.
+  - destruct (increase_p_spec _ _ _ _ _ _ _ NDp SU) as (_ & x & L & _ & _ & _ & _ & _ & _ & Ec & _ & _ & _ & _ & _ & _ & Ep & _).
     constructor; rewrite ?Ep, ?Ec; auto.
   - pose proof (request_pending _ _ _ _ _ _ _ _ _ SU) as Ep.
     destruct (request_batch_spec _ _ _ _ _ _ _ _ _ NDp (inv_bnlt _ I) SU)
